@@ -248,8 +248,8 @@ impl SaveDirState {
                         setup_out,
                         "RSP_{rsp_index}=$(mktemp)\n\
                          while IFS= read -r LINE || [ -n \"$LINE\" ]; do\n\
-                           LINE=\"${{LINE//\\$D/$D}}\"\n\
-                           LINE=\"${{LINE//\\$OUT/$OUT}}\"\n\
+                           LINE=\"${{LINE//\\\"\\$D\\\"/$D}}\"\n\
+                           LINE=\"${{LINE//\\\"\\$OUT\\\"/$OUT}}\"\n\
                            printf '%s\\n' \"$LINE\"\n\
                          done < \"$D/{at_filename}\" > \"$RSP_{rsp_index}\"\n\
                          trap \"rm -f \\\"$RSP_{rsp_index}\\\"\" EXIT\n"
@@ -267,7 +267,13 @@ impl SaveDirState {
                 if path.is_empty() {
                     path = args.next().map(|s| s.as_str()).unwrap_or_default();
                 }
-                out.write_all(b"-o $OUT")?;
+                // In a response file, `"$OUT"` (with the quotes) is the placeholder that the read loop
+                // substitutes. In the script, the quotes are shell quoting.
+                if is_rsp_file {
+                    out.write_all(b"-o\n\"$OUT\"")?;
+                } else {
+                    out.write_all(b"-o \"$OUT\"")?;
+                }
                 *original_output_file = Some(path.to_owned());
             } else if let Some(mut dir) = arg.strip_prefix("-L") {
                 if dir.is_empty() {
@@ -276,14 +282,14 @@ impl SaveDirState {
 
                 let dir = std::path::absolute(dir)?;
                 out.write_all(b"-L")?;
-                write_copied_file_arg(out, &dir)?;
+                write_copied_file_arg(out, &dir, is_rsp_file)?;
             } else {
                 // If the arg contains '=', then check to see if what's after the '=' is a filename
                 // that exists. If it does, use that.
                 let maybe_path = if let Some(eq_index) = arg.find('=') {
                     let after_equals = &arg[eq_index + 1..];
                     if Path::new(after_equals).exists() {
-                        out.write_all(&arg.as_bytes()[..=eq_index])?;
+                        write_quoted(out, &arg[..=eq_index], is_rsp_file)?;
                         after_equals
                     } else {
                         arg.as_str()
@@ -294,18 +300,9 @@ impl SaveDirState {
 
                 let path = std::path::absolute(maybe_path)?;
                 if self.output_path(&path).exists() {
-                    write_copied_file_arg(out, &path)?;
-                } else if is_rsp_file {
-                    // At-file content is consumed directly by the linker, not by a shell, so no
-                    // shell escaping is needed.
-                    out.write_all(maybe_path.as_bytes())?;
+                    write_copied_file_arg(out, &path, is_rsp_file)?;
                 } else {
-                    for b in maybe_path.bytes() {
-                        if b" $\\".contains(&b) {
-                            out.write_all(b"\\")?;
-                        }
-                        out.write_all(&[b])?;
-                    }
+                    write_quoted(out, maybe_path, is_rsp_file)?;
                 }
             }
         }
@@ -588,9 +585,48 @@ fn write_arg_separator(out: &mut dyn Write, is_at_file: bool) -> Result {
     Ok(())
 }
 
-fn write_copied_file_arg(out: &mut dyn Write, path: &Path) -> Result {
-    out.write_all(b"$D/")?;
-    out.write_all(to_output_relative_path(path).as_os_str().as_encoded_bytes())?;
+fn write_copied_file_arg(out: &mut dyn Write, path: &Path, is_rsp_file: bool) -> Result {
+    // `"$D"` is shell quoting in the script and, including the quotes, the placeholder that the
+    // read loop substitutes in a response file.
+    out.write_all(b"\"$D\"/")?;
+    let relative = to_output_relative_path(path);
+    if is_rsp_file {
+        write_quoted(out, &relative.to_string_lossy(), true)?;
+    } else {
+        write_shell_quoted(out, relative.as_os_str().as_encoded_bytes())?;
+    }
+    Ok(())
+}
+
+/// Writes `text` so that whatever reads it back (bash for the script, our response-file parser for
+/// an at-file) gets exactly `text` as (part of) one argument.
+fn write_quoted(out: &mut dyn Write, text: &str, is_rsp_file: bool) -> Result {
+    if is_rsp_file {
+        // See `arguments_from_string`: a backslash makes the next character literal.
+        for ch in text.chars() {
+            if ch.is_whitespace() || matches!(ch, '\'' | '"' | '\\') {
+                out.write_all(b"\\")?;
+            }
+            write!(out, "{ch}")?;
+        }
+        Ok(())
+    } else {
+        write_shell_quoted(out, text.as_bytes())
+    }
+}
+
+/// Single-quotes `bytes` for a POSIX shell. Nothing is special inside single quotes; a single quote
+/// itself is written as `'\''`.
+fn write_shell_quoted(out: &mut dyn Write, bytes: &[u8]) -> Result {
+    out.write_all(b"'")?;
+    for &b in bytes {
+        if b == b'\'' {
+            out.write_all(b"'\\''")?;
+        } else {
+            out.write_all(&[b])?;
+        }
+    }
+    out.write_all(b"'")?;
     Ok(())
 }
 
